@@ -303,6 +303,19 @@ func c04ValueFilters(rep *evid.Reporter, root *c04State) (filters, reads int) {
 		}
 		st = n
 	}
+	// the other ledger of the bucket moves the same accounts afterwards (higher seq), to other balances and with other metadata
+	for i, ps := range [][]ledger.Posting{{p("world", "users:1", 1000)}, {p("world", "orders:7", 1000)}, {p("users:2", "world", 500)}, {p("orders", "sink", 900)}} {
+		ps := ps
+		n, errText := st.apply(c04Op{Name: fmt.Sprintf("valuefilters-l2-%d", i), Ledger: "l2", Make: func(s *c04State) []*ledger.Log {
+			t := ledger.NewTransaction().WithPostings(ps...).WithID(nextTxID(s.logs["l2"])).WithDate(c04T1).WithMetadata(metadata.Metadata{"kind": "sale"}).WithReference(fmt.Sprintf("r-%d", i+1))
+			return []*ledger.Log{ledger.NewTransactionLogWithDate(t, map[string]metadata.Metadata{ps[0].Destination: {"tier": "gold", "vip": "yes"}}, ledger.Time{})}
+		}})
+		if n == nil {
+			rep.Violation("insert-error:filters", "InsertLogs failed while building the filter fixture: "+errText, map[string]interface{}{"engine": "pgmini-filters"})
+			return 0, 0
+		}
+		st = n
+	}
 	logs := st.logs["l1"]
 	fold := memstore.Fold(logs)
 	exp := expectedMoves(logs)
